@@ -1,4 +1,273 @@
-/- Model driver for the Text format family (C01/C02/C03 parts) — stub. -/
-import Driver.Common
+/-
+Model driver for the text formats (OPL + XML parts of C01 / C02).  Same op lines as
+harness/text.cpp (object sequences in the canonical dump syntax, "/" between objects):
 
-def main : IO Unit := pure ()
+  wr <fmt> <opts> / obj / obj ...    model writer  -> "ok <hex>" | "err:<class>"
+  rd <fmt> <opts> <hex>              model reader  -> "ok <hdr> | <obj> | ..." | "err:<class>"
+  render <fmt> <choices> / obj ...   specification renderer (C02) -> "ok <hex>"
+  events <hex>                       the tiny tokenizer -> event dump like the harness' `expat` op
+  markup <opts> / obj ...            events of the writer's markup (ExpatContract side) -> same dump
+-/
+import Driver.Common
+import Osmium.Model.OplFmt
+import Osmium.Model.XmlFmt
+
+open Osmium Osmium.Osm Osmium.TextFmt
+
+namespace TextDriver
+
+def splitOn (s : String) (c : String) : List String := s.splitOn c
+
+def int? (s : String) : Option Int := s.toInt?
+def nat? (s : String) : Option Nat := s.toNat?
+
+def loc? (s : String) : Option Location :=
+  match splitOn s "," with
+  | [a, b] => do let x ← int? a; let y ← int? b; pure ⟨x, y⟩
+  | _ => none
+
+def box? (s : String) : Option (Location × Location) :=
+  match splitOn s ";" with
+  | [a, b] => do let x ← loc? a; let y ← loc? b; pure (x, y)
+  | _ => none
+
+def dropFirst (s : String) : String := (s.drop 1).toString
+
+def opts? (s : String) : Option Opts :=
+  (splitOn s ",").foldlM (init := ({} : Opts)) fun o kv =>
+    match splitOn kv "=" with
+    | [k, v] => do
+      let n ← nat? v
+      if k == "md" then pure { o with md := MetaOpts.ofBits n }
+      else if k == "low" then pure { o with locationsOnWays := n != 0 }
+      else if k == "hist" then pure { o with history := n != 0 }
+      else if k == "osc" then pure { o with changeOps := n != 0 }
+      else if k == "fvf" then pure { o with forceVisible := n != 0 }
+      else none
+    | _ => none
+
+/-- leading `T<hex>=<hex>` tokens -/
+def tags? : List String → Option (List Tag × List String)
+  | [] => some ([], [])
+  | t :: ts =>
+    if t.startsWith "T" then
+      match splitOn (dropFirst t) "=" with
+      | [k, v] => do
+        let k ← Driver.unhex k
+        let v ← Driver.unhex v
+        let (r, rest) ← tags? ts
+        pure (⟨k, v⟩ :: r, rest)
+      | _ => none
+    else some ([], t :: ts)
+
+def meta? : List String → Option (Meta × List String)
+  | id :: v :: vis :: t :: c :: u :: user :: rest => do
+    let id ← int? id
+    let v ← nat? (dropFirst v)
+    let t ← nat? (dropFirst t)
+    let c ← nat? (dropFirst c)
+    let u ← nat? (dropFirst u)
+    let user ← Driver.unhex user
+    let (tags, rest) ← tags? rest
+    pure ({ id := id, version := v, visible := vis == "V", timestamp := t, changeset := c, uid := u, user := user, tags := tags }, rest)
+  | _ => none
+
+def object? : List String → Option Object
+  | "n" :: ts => do
+    let (m, rest) ← meta? ts
+    match rest with
+    | [l] => do let l ← loc? (dropFirst l); pure (.node m l)
+    | _ => none
+  | "w" :: ts => do
+    let (m, rest) ← meta? ts
+    let ns ← rest.mapM fun t =>
+      match splitOn (dropFirst t) "@" with
+      | [r, l] => do let r ← int? r; let l ← loc? l; pure (⟨r, l⟩ : NodeRef)
+      | _ => none
+    pure (.way m ns)
+  | "r" :: ts => do
+    let (m, rest) ← meta? ts
+    let ms ← rest.mapM fun t =>
+      match splitOn (dropFirst t) ":" with
+      | [ty, r, role] => do let ty ← nat? ty; let r ← int? r; let role ← Driver.unhex role; pure (⟨ty, r, role⟩ : Member)
+      | _ => none
+    pure (.relation m ms)
+  | "c" :: id :: a :: z :: n :: m :: u :: user :: b :: rest => do
+    let id ← nat? id
+    let a ← nat? (dropFirst a)
+    let z ← nat? (dropFirst z)
+    let n ← nat? (dropFirst n)
+    let m ← nat? (dropFirst m)
+    let u ← int? (dropFirst u)
+    let user ← Driver.unhex user
+    let (bl, tr) ← box? (dropFirst b)
+    let (tags, rest) ← tags? rest
+    let cs ← rest.mapM fun t =>
+      match splitOn (dropFirst t) ":" with
+      | [d, uid, cu, tx] => do
+        let d ← nat? d; let uid ← nat? uid; let cu ← Driver.unhex cu; let tx ← Driver.unhex tx
+        pure (⟨d, uid, cu, tx⟩ : Comment)
+      | _ => none
+    pure (.changeset id a z n m u user bl tr tags cs)
+  | _ => none
+
+def header? : List String → Option Header
+  | "h" :: g :: hs :: rest => do
+    let g ← Driver.unhex g
+    let bs ← rest.mapM fun t => box? (dropFirst t)
+    pure { generator := g, boxes := bs, multipleVersions := hs == "H" }
+  | _ => none
+
+/-- split at "/" tokens -/
+def groups (ws : List String) : List (List String) :=
+  let rec go : List String → List String → List (List String) → List (List String)
+    | [], cur, acc => (if cur.isEmpty then acc else cur.reverse :: acc).reverse
+    | w :: ws, cur, acc =>
+      if w == "/" then go ws [] (if cur.isEmpty then acc else cur.reverse :: acc) else go ws (w :: cur) acc
+  go ws [] []
+
+/-- optional header followed by objects -/
+def input? (ws : List String) : Option (Header × List Object) :=
+  match groups ws with
+  | g :: gs =>
+    if g.head? == some "h" then do
+      let h ← header? g
+      let os ← gs.mapM object?
+      pure (h, os)
+    else do
+      let os ← (g :: gs).mapM object?
+      pure ({}, os)
+  | [] => some ({}, [])
+
+def natList (s : String) : List Nat :=
+  if s == "-" then [] else (splitOn s ".").filterMap nat?
+
+def kvs (s : String) : List (String × String) :=
+  (splitOn s ",").filterMap fun kv => match splitOn kv "=" with | [k, v] => some (k, v) | _ => none
+
+def oplChoices (s : String) : OplFmt.OplSpec.Choices :=
+  (kvs s).foldl (init := {}) fun c (k, v) =>
+    if k == "order" then { c with order := natList v }
+    else if k == "seps" then { c with seps := natList v }
+    else if k == "omit" then { c with omitDefaults := v != "0" }
+    else if k == "esc" then { c with escapeMode := (nat? v).getD 0 }
+    else if k == "pad" then { c with padCoords := v != "0" }
+    else if k == "end" then { c with endings := natList v }
+    else if k == "junk" then { c with junk := natList v }
+    else if k == "nofinal" then { c with noFinalEnding := v != "0" }
+    else c
+
+def xmlChoices (s : String) : XmlFmt.XmlSpec.Choices :=
+  (kvs s).foldl (init := {}) fun c (k, v) =>
+    if k == "order" then { c with attrOrder := natList v }
+    else if k == "quotes" then { c with quotes := natList v }
+    else if k == "esc" then { c with escMode := (nat? v).getD 0 }
+    else if k == "ws" then { c with wsMode := (nat? v).getD 0 }
+    else if k == "expand" then { c with expandEmpty := v != "0" }
+    else if k == "omit" then { c with omitDefaults := v != "0" }
+    else if k == "decl" then { c with declMode := (nat? v).getD 0 }
+    else if k == "eqsp" then { c with eqSpaces := v != "0" }
+    else if k == "vis" then { c with visibleAttr := v != "0" }
+    else if k == "tagsfirst" then { c with tagsFirst := v != "0" }
+    else if k == "osc" then { c with osc := v != "0" }
+    else c
+
+def werr : WErr → String
+  | .intMin => "err:int-min"
+  | .utf8 => "err:utf8"
+  | .invalidLocation => "err:invalid_location"
+
+def oplErr : OplFmt.PErr → String
+  | .opl => "err:opl_error"
+  | .location => "err:invalid_location"
+  | .length => "err:length_error"
+  | .fuel => "err:model-fuel"
+
+def xmlErr : XmlFmt.XErr → String
+  | .xml => "err:xml_error"
+  | .formatVersion => "err:format_version_error"
+  | .range => "err:range_error"
+  | .invalidArgument => "err:invalid_argument"
+  | .location => "err:invalid_location"
+  | .length => "err:length_error"
+
+def dumpAttrs (as : List (String × Bytes)) : String :=
+  ",".intercalate (as.map fun a => Driver.hex (XmlFmt.str a.1) ++ "=" ++ Driver.hex a.2)
+
+/-- event dump in the syntax of the harness op `expat`; adjacent character data merged -/
+def dumpEvents (evs : List XmlFmt.Ev) : String :=
+  let rec go : List XmlFmt.Ev → Bytes → String
+    | [], t => if t.isEmpty then "" else " X" ++ Driver.hex t
+    | .chars c :: es, t => go es (t ++ c)
+    | .start n as :: es, t => (if t.isEmpty then "" else " X" ++ Driver.hex t) ++ " S" ++ Driver.hex (XmlFmt.str n) ++ "(" ++ dumpAttrs as ++ ")" ++ go es []
+    | .stop n :: es, t => (if t.isEmpty then "" else " X" ++ Driver.hex t) ++ " E" ++ Driver.hex (XmlFmt.str n) ++ go es []
+  "ok" ++ go evs []
+
+/-- drop character data outside the root element (not reported by a parser) -/
+def trimEvents (evs : List XmlFmt.Ev) : List XmlFmt.Ev :=
+  let isC : XmlFmt.Ev → Bool := fun e => match e with | .chars _ => true | _ => false
+  ((evs.dropWhile isC).reverse.dropWhile isC).reverse
+
+def dumpAll (h : Header) (os : List Object) : String :=
+  "ok " ++ dumpHeader h ++ String.join (os.map fun o => " | " ++ dump o)
+
+def step (line : String) : String :=
+  match Driver.words line with
+  | "wr" :: "opl" :: o :: rest =>
+    match opts? o, input? rest with
+    | some o, some (_, objs) =>
+      match OplFmt.writeFile o objs with
+      | .ok b => "ok " ++ Driver.hex b
+      | .error e => werr e
+    | _, _ => "bad-op"
+  | ["rd", "opl", _, h] =>
+    match Driver.unhex h with
+    | some bs =>
+      match OplFmt.parseFile {} bs with
+      | .ok os => dumpAll {} os
+      | .error e => oplErr e
+    | none => "bad-op"
+  | "wr" :: "xml" :: o :: rest =>
+    match opts? o, input? rest with
+    | some o, some (h, objs) =>
+      match XmlFmt.writeFile o h (if objs.isEmpty then [] else [objs]) with
+      | .ok b => "ok " ++ Driver.hex b
+      | .error e => werr e
+    | _, _ => "bad-op"
+  | ["rd", "xml", _, h] =>
+    match Driver.unhex h with
+    | some bs =>
+      match XmlFmt.readFile XmlFmt.tokenize {} bs with
+      | .ok (hd, os) => dumpAll hd os
+      | .error e => xmlErr e
+    | none => "bad-op"
+  | "render" :: "opl" :: c :: rest =>
+    match input? rest with
+    | some (_, objs) => "ok " ++ Driver.hex (OplFmt.OplSpec.render (oplChoices c) objs)
+    | none => "bad-op"
+  | "render" :: "xml" :: c :: rest =>
+    match input? rest with
+    | some (h, objs) => "ok " ++ Driver.hex (XmlFmt.XmlSpec.render (xmlChoices c) h objs)
+    | none => "bad-op"
+  | ["events", h] =>
+    match Driver.unhex h with
+    | some bs =>
+      match XmlFmt.tokenize bs with
+      | some evs => dumpEvents evs
+      | none => "err"
+    | none => "bad-op"
+  | "markup" :: o :: rest =>
+    match opts? o, input? rest with
+    | some o, some (h, objs) =>
+      match XmlFmt.filePieces o h (if objs.isEmpty then [] else [objs]) with
+      | .ok ps =>
+        match XmlFmt.eventsOf ps with
+        | some evs => dumpEvents (trimEvents evs)
+        | none => "err"
+      | .error e => werr e
+    | _, _ => "bad-op"
+  | _ => "bad-op"
+
+end TextDriver
+
+def main : IO Unit := Driver.loopPure TextDriver.step
